@@ -130,7 +130,10 @@ def run_shard(ctx):
         r = rng.random()
         phi = gens.synthetic_phase(rng, noise=(0.0 if r < .4 else float(rng.uniform(0, .3))), reversals=bool(r > .6))
         st = float(gens.pick(rng, list(STEPS)))
-        check(ctx, phi, st, {'kind': 'seq', 'phase': phi, 'phase_step': st}, 'synthetic')
+        if rng.random() < .25:
+            phi, _ = gens.relayout(rng, phi, 'strided')     # same values in a strided view
+            ctx.count('strided_inputs')
+        check(ctx, phi, st, {'kind': 'seq', 'phase': np.array(phi), 'phase_step': st}, 'synthetic')
         if i % 5 == 0:
             # multi-column: column j of the result must equal the result for column j alone
             m = int(rng.integers(2, 4))
